@@ -117,6 +117,9 @@ impl Rng {
 
 /// Install a silent panic hook (panics of the code under test are data, not noise).
 pub fn quiet_panics() {
+    if std::env::var_os("RPM_VERIF_LOUD").is_some() {
+        return;
+    }
     panic::set_hook(Box::new(|_| {}));
 }
 
